@@ -268,6 +268,19 @@ pub fn normalize(raw: &Case, opts: &NormOpts) -> Case {
                             _ => Op::Nop,
                         }
                     }
+                    Op::AwaitJoin { a, b } => {
+                        let (sa, sb) = (sl(*a), sl(*b));
+                        let ok = |si: Option<SlotInfo>| matches!(si, Some(si) if matches!(si.kind, SK::FutDesync | SK::After) && !(cfg.pool == 0 && users[si.obj] > 1));
+                        // (the only holds this caller may have are the two futures themselves)
+                        let holds_ok = slots.iter().enumerate().all(|(i, s)| i == sa || i == sb || !matches!(s, Some(s) if matches!(s.kind, SK::FutSync | SK::Suspend | SK::Resumer) || s.polled));
+                        if sa != sb && ok(slots[sa]) && ok(slots[sb]) && holds_ok {
+                            slots[sa] = None;
+                            slots[sb] = None;
+                            Op::AwaitJoin { a: sa as u8, b: sb as u8 }
+                        } else {
+                            Op::Nop
+                        }
+                    }
                     Op::SyncWait { slot } => {
                         let s = sl(*slot);
                         match slots[s] {
